@@ -463,3 +463,65 @@ func replaceToken(s, tok, with string) string {
 		s = s[end:]
 	}
 }
+
+// nestedIn: t (or what it points to) is the named struct type pkg.name, or a named struct type of the same package
+// that pkg.name holds by value (fields grouped into a small struct, embedded or not), up to two levels.
+func nestedIn(c *core.Ctx, t types.Type, pkgPath, name string) bool {
+	if an.IsNamed(t, pkgPath, name) {
+		return true
+	}
+	if p, ok := t.Underlying().(*types.Pointer); ok {
+		t = p.Elem()
+	}
+	n, ok := t.(*types.Named)
+	if !ok || n.Obj().Pkg() == nil || n.Obj().Pkg().Path() != pkgPath {
+		return false
+	}
+	rel := strings.TrimPrefix(strings.TrimPrefix(pkgPath, core.ModPath), "/")
+	outer := c.Named(rel, name)
+	if outer == nil {
+		return false
+	}
+	var holds func(st *types.Struct, depth int) bool
+	holds = func(st *types.Struct, depth int) bool {
+		for i := 0; st != nil && i < st.NumFields(); i++ {
+			ft := st.Field(i).Type()
+			if types.Identical(ft, n) {
+				return true
+			}
+			if inner, isStruct := ft.Underlying().(*types.Struct); isStruct && depth < 2 {
+				if fn, isNamed := ft.(*types.Named); isNamed && fn.Obj().Pkg() != nil && fn.Obj().Pkg().Path() == pkgPath && holds(inner, depth+1) {
+					return true
+				}
+			}
+		}
+		return false
+	}
+	st, _ := outer.Underlying().(*types.Struct)
+	return holds(st, 0)
+}
+
+// leafFields lists the fields of pkg.name including those of structs it holds by value (two levels).
+func leafFields(c *core.Ctx, rel, name string) []*types.Var {
+	var out []*types.Var
+	outer := c.Named(rel, name)
+	if outer == nil {
+		return nil
+	}
+	var walk func(st *types.Struct, depth int)
+	walk = func(st *types.Struct, depth int) {
+		for i := 0; st != nil && i < st.NumFields(); i++ {
+			f := st.Field(i)
+			if fn, isNamed := f.Type().(*types.Named); isNamed && fn.Obj().Pkg() != nil && fn.Obj().Pkg() == outer.Obj().Pkg() && depth < 2 {
+				if inner, isStruct := fn.Underlying().(*types.Struct); isStruct {
+					walk(inner, depth+1)
+					continue
+				}
+			}
+			out = append(out, f)
+		}
+	}
+	st, _ := outer.Underlying().(*types.Struct)
+	walk(st, 0)
+	return out
+}
